@@ -64,13 +64,16 @@ def run(run, tier):
         if v['traj'] is False:
             run.violation('C04/fast_nonMarkov_SIR/wf_trajb', 'the extracted checker wf_trajb rejects the implementation\'s arrays %r' % (plain['rows'][:8],),
                           dict(EL.case_json(case), entry='fast_nonMarkov_SIR', checker='wf_trajb'))
+        if v.get('cons') is False:
+            run.violation('C10/fast_nonMarkov_SIR/consistent_b', 'the extracted checker consistent_b rejects the implementation\'s node histories %r against its plain arrays %r' % (
+                          dict(list(full['hist'].items())[:4]), plain['rows'][:8]), dict(EL.case_json(case), entry='fast_nonMarkov_SIR', checker='consistent_b'))
         if v['tx'] is False:
             run.violation('C09/fast_nonMarkov_SIR/tx_validb', 'the extracted checker tx_validb rejects the implementation\'s transmissions() %r' % (full['trans'][:8],),
                           dict(EL.case_json(case), entry='fast_nonMarkov_SIR', checker='tx_validb'))
     C.proof_coverage(run, merged, judged, nontrivial,
                      'fast_nonMarkov_SIR with table rules (delays in {0,1/2,1,2,3,inf}, durations in {0,1/2,1,2,inf}: ties and events at tmin are normal), random graphs '
                      '<= 7 nodes incl. directed, 0-3 initial infected (all container forms), 0-2 initial recovered, tmin in {0,5,-3,5/2,..}, finite and infinite tmax; both '
-                     'return modes of the implementation; extracted wf_trajb on the plain arrays and tx_validb on transmissions(). Non-trivial = at least one event after set-up.',
+                     'return modes of the implementation; extracted wf_trajb on the plain arrays, tx_validb on transmissions(), consistent_b on (node histories, plain arrays). Non-trivial = at least one event after set-up.',
                      samples, {'stats': stats, 'props': {k: {'ok': p['ok'], 'theorems': p['theorems']} for k, p in props.items()}})
 
 
@@ -81,4 +84,4 @@ def replay(rp):
     C.build_driver(EL.XCOMP)
     (_, v, plain, full), = EL.xchk_impl(EoN, sim, [case])
     print('verdict of the extracted checkers on the implementation outputs:', v)
-    return 1 if (v.get('traj') is False or v.get('tx') is False or (v.get('okb2') and 'impl_failed' in v)) else 0
+    return 1 if (v.get('traj') is False or v.get('tx') is False or v.get('cons') is False or (v.get('okb2') and 'impl_failed' in v)) else 0
